@@ -1,7 +1,7 @@
 //! Isotonic
 #![allow(non_snake_case)]
 use crate::error::{LinearError, Result};
-use ndarray::{s, stack, Array1, ArrayBase, Axis, Data, Ix1, Ix2};
+use ndarray::{stack, Array1, ArrayBase, Axis, Data, Ix1, Ix2};
 #[cfg(feature = "serde")]
 use serde_crate::{Deserialize, Serialize};
 
@@ -175,12 +175,13 @@ impl<F: Float, D: Data<Elem = F>, T: AsSingleTargets<Elem = F>>
         let mut i = 0;
         while i < n {
             let j = J_index[i];
-            let x = X
-                .slice(s![i..=j, -1])
-                .into_iter()
+            // the block holds the samples `indices[i..=j]` of the sorted order, not rows i..=j of `X`
+            let x = indices[i..=j]
+                .iter()
+                .map(|&idx| x[idx])
                 .max_by(|a, b| a.partial_cmp(b).unwrap_or(Ordering::Greater))
                 .unwrap();
-            W.push(*x);
+            W.push(x);
             i = j + 1
         }
         let regressor = Array1::from_vec(W.clone());
